@@ -4,7 +4,11 @@ package stackage
 
 // p: ns (source length), nd (destination length), variant (0 Stack, 1 alias,
 // 2 pointer to alias, 3 read-only, 4 zero Stack, 5 foreign value, 6 nil,
-// 7 the source itself, 8 an alias of the source, 9 a pointer to the source)
+// 7 the source itself, 8 an alias of the source, 9 a pointer to the source,
+// 10/11 typed nil *Stack / *alias, 12-14 nil pointer chains (**Stack, **alias,
+// ***Stack with a nil middle link), 15 a destination whose push policy refuses
+// some of the offered values, 16 a no-nesting destination and a source holding
+// a Stack)
 func VH_C15(p []int) {
 	ns, nd := p[0], p[1]
 	vhPreMode = 2
@@ -18,13 +22,35 @@ func VH_C15(p []int) {
 	if p[2] == 3 {
 		dst.cfg.opt |= ronly
 	}
+	refusals := 0
+	if p[2] == 15 {
+		// state another method left on the destination: a policy that
+		// refuses an arbitrary subset of what it is offered
+		sentinel := errorf("refused by the destination's policy")
+		dst.s.SetPushPolicy(func(x ...any) error {
+			if nondetBool() {
+				return nil
+			}
+			refusals++
+			return sentinel
+		})
+	}
+	if p[2] == 16 {
+		dst.cfg.opt |= nnest
+		if ns > 0 {
+			inner := Or().Push("nested")
+			src.model[0] = inner
+			(*src.s.stack)[1] = inner
+			refusals = 1
+		}
+	}
 	dstSnap := vhSnapCfg(dst.cfg)
 	var target any
 	usable := true
 	switch p[2] {
-	case 0, 3:
+	case 0, 3, 15, 16:
 		target = dst.s
-		usable = p[2] == 0
+		usable = p[2] != 3
 	case 1:
 		target = vhAliasStack(dst.s)
 	case 2:
@@ -49,6 +75,15 @@ func VH_C15(p []int) {
 	case 11:
 		var p *vhAliasStack
 		target, usable = p, false
+	case 12:
+		var p **Stack
+		target, usable = p, false
+	case 13:
+		var p **vhAliasStack
+		target, usable = p, false
+	case 14:
+		var mid **Stack
+		target, usable = &mid, false
 	}
 	free := -1
 	if dst.cfg.cap != 0 {
@@ -62,7 +97,9 @@ func VH_C15(p []int) {
 	vhAssertContent(src.s, src.model, "src-content")
 	// destination
 	vhInv(dst.s, dst.cfg, "dst-inv")
-	vhAssertCfgSame(dstSnap, vhSnapCfg(dst.cfg), "dst-cfg")
+	if p[2] != 15 { // a refusal by the policy is reported through the destination's Err
+		vhAssertCfgSame(dstSnap, vhSnapCfg(dst.cfg), "dst-cfg")
+	}
 	all := append(vhCopy(dst.model), src.model...)
 	if ok {
 		vhAssertContent(dst.s, all, "true-means-everything-copied")
@@ -73,6 +110,11 @@ func VH_C15(p []int) {
 	} else if free >= 0 && free < ns {
 		verifAssert(!ok, "insufficient-room-fails")
 		vhAssertContent(dst.s, dst.model, "insufficient-room-unchanged")
+	} else if p[2] == 15 || p[2] == 16 {
+		// the destination turned something away: not everything was copied
+		if refusals > 0 {
+			verifAssert(!ok, "refused-value-means-false")
+		}
 	} else {
 		// enough room, usable destination, no policy: the copy must succeed
 		verifAssert(ok, "enough-room-succeeds")
